@@ -15,7 +15,7 @@ def prepare() -> list[str]:
     from harness.translate import tsql
 
     try:
-        return tsql.write_gm()
+        return tsql.run_isolated("gm")
     except Exception as e:  # noqa: BLE001
         return [f"T-sql capture/translation failed in write_gm: {type(e).__name__}: {str(e)[:300]}"]
 
